@@ -22,8 +22,11 @@ import (
 	"bufio"
 	"bytes"
 	"fmt"
+	"os"
+	"runtime"
 	"sort"
 	"strings"
+	"time"
 
 	"github.com/openacid/slim/encode"
 	"github.com/openacid/slim/trie"
@@ -94,6 +97,39 @@ func c06Load(buf []byte, enc encode.Encoder) (st *trie.SlimTrie, err error) {
 		return nil, err
 	}
 	return st, nil
+}
+
+// c06Guard runs f and watches it: "" when f returned; otherwise why it was
+// given up (f keeps running in its goroutine - the caller must exit).
+func c06Guard(f func()) string {
+	done := make(chan struct{})
+	go func() {
+		defer close(done)
+		f()
+	}()
+	select {
+	case <-done:
+		return ""
+	case <-time.After(20 * time.Millisecond):
+	}
+	start := time.Now()
+	tick := time.NewTicker(100 * time.Millisecond)
+	defer tick.Stop()
+	var ms runtime.MemStats
+	for {
+		select {
+		case <-done:
+			return ""
+		case <-tick.C:
+			runtime.ReadMemStats(&ms)
+			if ms.HeapAlloc > 3<<30 {
+				return fmt.Sprintf("allocated more than 3 GiB (%d MiB after %.1f s) without returning", ms.HeapAlloc>>20, time.Since(start).Seconds())
+			}
+			if time.Since(start) > 120*time.Second {
+				return "did not return within 120 s"
+			}
+		}
+	}
 }
 
 // ---------------------------------------------------------------- the oracle
@@ -342,20 +378,37 @@ func c06Eval(c *Ctx, cs *c06Case, emit bool, stc *c06Stats) (*finding, []byte) {
 		return nil, nil
 	}
 	_, bs, spec := cs.TC.Values()
-	st, err := c06Load(buf, spec.Enc)
-	if err != nil {
-		kind := "load-error"
-		if strings.HasPrefix(err.Error(), "PANIC") {
-			kind = "load-panic"
-		}
-		return &finding{key: "C06:" + kind, what: fmt.Sprintf("C06: Unmarshal of a %s stream failed: %v", cs.L.Name, err), got: err.Error(), want: "a loaded trie"}, buf
-	}
 	var starts []string
 	if cs.complete() {
 		starts = c06ScanStarts(c.R.Fork(), cs.TC.Keys, cs.TC.Queries)
 	}
-	if f := c06Oracle(st, spec, cs.TC.Keys, bs, cs.complete(), cs.TC.Queries, starts, 1<<30); f != nil {
-		return f, buf
+	// load + oracle under a watchdog: a loader that does not terminate (or
+	// allocates without bound) on a legacy stream is a finding, not a dead harness
+	var st *trie.SlimTrie
+	var fd *finding
+	hung := c06Guard(func() {
+		var err error
+		st, err = c06Load(buf, spec.Enc)
+		if err != nil {
+			kind := "load-error"
+			if strings.HasPrefix(err.Error(), "PANIC") {
+				kind = "load-panic"
+			}
+			fd = &finding{key: "C06:" + kind, what: fmt.Sprintf("C06: Unmarshal of a %s stream failed: %v", cs.L.Name, err), got: err.Error(), want: "a loaded trie"}
+			return
+		}
+		fd = c06Oracle(st, spec, cs.TC.Keys, bs, cs.complete(), cs.TC.Queries, starts, 1<<30)
+	})
+	if hung != "" {
+		f := &finding{key: "C06:no-termination", what: "C06: Unmarshal or a lookup on a " + cs.L.Name + " stream " + hung, got: hung, want: "a loaded trie that answers"}
+		c.Or.Violate(f.key+"@"+cs.L.Name, f.what+" (layout "+cs.L.Name+"; not minimised: every attempt may hang)", cs.replay(f, buf))
+		// the runaway goroutine cannot be stopped: write the evidence and leave
+		c.Close()
+		fmt.Printf("C06: evaluations=%d distinct=%d violations=%d (stopped at a non-terminating load)\n", c.Or.Evaluations, c.Or.Distinct, len(c.Or.Violations))
+		os.Exit(0)
+	}
+	if fd != nil {
+		return fd, buf
 	}
 	if !emit {
 		return nil, buf
@@ -623,10 +676,7 @@ func init() {
 
 		ex, exErr := c06ConfirmCoqExamples(fx)
 		c.Or.Extra["coq_examples_confirmed"] = ex
-		if exErr != nil {
-			// the Examples of coq/props/C06.v no longer describe the files / the loader
-			panic("C06: Coq Example bytes not confirmed by the real loader: " + exErr.Error())
-		}
+		// a failure is raised at the end, after the oracle had its chance to find the failing input
 
 		// the oracle must notice a stream that encodes another index: write the
 		// values of two keys swapped, keep the expectation unswapped
@@ -640,6 +690,8 @@ func init() {
 			if err == nil {
 				if st, err := c06Load(buf, encode.I32{}); err == nil {
 					selftest[ln] = c06Oracle(st, specByName("I32"), keys, good, false, nil, nil, 10) != nil
+				} else {
+					selftest[ln] = true // a failing load is noticed by c06Eval
 				}
 			}
 			if !selftest[ln] {
@@ -797,6 +849,22 @@ func init() {
 		c.Or.Extra["model_correspondence"] = map[string]interface{}{
 			"cases_emitted":                 stats.corrEmitted,
 			"three_array_cases_skipped_big": stats.corrSkippedBig,
+		}
+
+		// the basis of the check itself: without a failing input found above, a
+		// broken basis must not pass silently
+		if len(c.Or.Violations) == 0 {
+			msg := ""
+			if len(acc.Failed) > 0 || len(acc.Skipped) > 0 || len(fx) == 0 {
+				msg = fmt.Sprintf("the reference legacy writers no longer reproduce the archived fixtures (%d not reproduced, %d unmatched files, %d fixtures): %v", len(acc.Failed), len(acc.Skipped), len(fx), acc.Failed)
+			} else if exErr != nil {
+				msg = "the Example bytes of coq/props/C06.v are not confirmed by the files / the real loader: " + exErr.Error()
+			}
+			if msg != "" {
+				c.Close()
+				fmt.Println("C06: " + msg)
+				os.Exit(3)
+			}
 		}
 	})
 }
